@@ -181,7 +181,7 @@ func init() {
 		return []cty.Value{a, kvNull(r, t)}
 	}
 	sets2 := func(r *rng.R) []cty.Value {
-		if r.Chance(12) { // element types that unify only unsafely, or only through an untyped null
+		if r.Chance(5) { // element types that unify only unsafely, or only through an untyped null
 			num := func(ss ...string) []cty.Value {
 				var vs []cty.Value
 				for _, x := range ss {
@@ -538,11 +538,11 @@ func init() {
 				return intv(r, -6, 9)
 			}
 		}
-		if r.Chance(15) { // a step with no finite binary expansion, held at full precision: each element is the previous one plus the step
+		if r.Chance(10) { // a step with no finite binary expansion, held at full precision: each element is the previous one plus the step
 			k := r.Intn(4)
 			step := cty.MustParseNumberVal([]string{"0.1", "0.3", "-0.7", "0.05"}[k])
 			start := []cty.Value{cty.NumberIntVal(0), cty.NumberIntVal(1), cty.NumberIntVal(2), cty.MustParseNumberVal("0.2")}[k]
-			end := []cty.Value{cty.NumberIntVal(2), cty.NumberIntVal(5), cty.NumberIntVal(-6), cty.NumberIntVal(1)}[k]
+			end := []cty.Value{cty.NumberIntVal(1), cty.MustParseNumberVal("3.5"), cty.NumberIntVal(-4), cty.MustParseNumberVal("0.7")}[k]
 			return []cty.Value{start, end, step}
 		}
 		vs := make([]cty.Value, r.Intn(5))
